@@ -30,6 +30,9 @@ def pcName : Pc → String
   | .pfPoll _ => "pfPoll" | .pfPollRel _ _ => "pfPollRel" | .pfBlocked _ => "pfBlocked" | .dqCheck _ _ => "dqCheck" | .dqDequeue _ _ => "dqDequeue"
   | .dqRequeue _ _ _ _ => "dqRequeue" | .dqCheck2 _ _ _ => "dqCheck2" | .dqSetWfw _ _ _ => "dqSetWfw" | .dqStore _ _ _ => "dqStore" | .dqSetWfp _ _ _ => "dqSetWfp"
   | .dqWakeWith _ _ _ _ => "dqWakeWith" | .dqStore2 _ _ => "dqStore2" | .dqIdle2 _ _ => "dqIdle2" | .dqIdle _ _ => "dqIdle" | .fsTake _ => "fsTake" | .fsTake2 _ => "fsTake2"
+  | .pollReady _ => "pollReady" | .pollPending _ => "pollPending" | .sfPoll _ => "sfPoll" | .sfRecv _ => "sfRecv" | .sfUser _ => "sfUser"
+  | .sfFinish _ => "sfFinish" | .sfBlocked _ => "sfBlocked" | .sfDrop _ => "sfDrop" | .sfDropDone _ => "sfDropDone"
+  | .resumeSend _ _ => "resumeSend" | .suspSignal _ _ _ => "suspSignal" | .suspSigDrop _ _ _ => "suspSigDrop"
   | .smSet _ => "smSet" | .dpRead => "dpRead" | .dpLock _ => "dpLock" | .dpHang _ _ => "dpHang" | .dpJoin _ => "dpJoin"
 
 def allPcNames : List String :=
@@ -39,7 +42,7 @@ def allPcNames : List String :=
    "sbStealTest", "sbStealIdle", "sbWait", "sbWaiting", "sbDone", "sbDropCv", "sbPrune", "rjDequeue", "rjPending", "rjParkCheck", "rjPark", "rjParked",
    "jobStart", "jobAwait", "jobBodyDone", "jobEnd", "jobSignal", "jobSigDrop", "jobDrop", "jobDropNotify", "ptRecv", "ptRecvd", "ptLockBusy", "ptLockSched", "ptPop",
    "ptUnlockSched", "ptUnlockBusy", "pdDequeue", "pdRequeue", "pdPending", "pdExit", "pfPoll", "pfPollRel", "pfBlocked", "dqCheck", "dqDequeue",
-   "dqRequeue", "dqCheck2", "dqSetWfw", "dqStore", "dqSetWfp", "dqWakeWith", "dqStore2", "dqIdle2", "dqIdle", "fsTake", "smSet", "dpRead", "dpLock", "dpHang", "dpJoin"]
+   "dqRequeue", "dqCheck2", "dqSetWfw", "dqStore", "dqSetWfp", "dqWakeWith", "dqStore2", "dqIdle2", "dqIdle", "fsTake", "pollReady", "pollPending", "sfPoll", "sfRecv", "sfUser", "sfFinish", "sfBlocked", "sfDrop", "sfDropDone", "resumeSend", "suspSignal", "suspSigDrop", "smSet", "dpRead", "dpLock", "dpHang", "dpJoin"]
 
 def qstateName : QState → String
   | .idle => "Idle" | .pending => "Pending" | .running => "Running" | .waitingForWake => "WaitingForWake"
@@ -204,7 +207,7 @@ def replayEvent (r : Replay) (ag : Nat) (ws : List String) : Except String Repla
   | "setup-done" :: _ => return { r with started := true }
   | kind :: args =>
     if !r.started then return r
-    if ["callers-done", "all-completed", "quiet", "finished", "free", "oraclefail", "start", "exit", "join", "wait", "woke"].contains kind then return r
+    if ["callers-done", "all-completed", "quiet", "finished", "oraclefail", "start", "exit", "join", "wait", "woke"].contains kind then return r
     if kind == "inv" then
       let id := parseNatD (args.getD 0 "")
       let k := args.getD 1 ""
@@ -214,6 +217,8 @@ def replayEvent (r : Replay) (ag : Nat) (ws : List String) : Except String Repla
         | "desync" => some (.desync x) | "sync" => some (.sync x) | "trysync" => some (.trySync x)
         | "fdesync" => some (.fdesync x gate) | "after" => some (.after x (gate.getD 0))
         | "await" => (lookupN r.callOp x).map .await | "syncf" => (lookupN r.callOp x).map .syncf | "dropf" => (lookupN r.callOp x).map .dropf
+        | "pollonce" => (lookupN r.callOp x).map .pollOnce | "resume" => (lookupN r.callOp x).map .resume
+        | "fsync" => some (.fsync x gate) | "suspend" => some (.suspend x) | "dropobj" => some (.dropObj x)
         | "open" => some (.openGate x) | "setmax" => some (.setMax x) | "despawn" => some .despawn
         | _ => none)
       let some c := cOpt | .error s!"UNMODELLED call kind {k}"
@@ -235,7 +240,7 @@ def replayEvent (r : Replay) (ag : Nat) (ws : List String) : Except String Repla
     -- a pending future may be polled again although its waker has not fired
     let r := match r.s.acts[a]? with
       | some av => (match av.pc with
-        | .pfBlocked _ => (match spuriousPoll r.s a with | some s' => { r with s := s', hits := "spuriousPoll" :: r.hits } | none => r)
+        | .pfBlocked _ | .sfBlocked _ => (match spuriousPoll r.s a with | some s' => runSilent { r with s := s', hits := "spuriousPoll" :: r.hits } a 64 | none => r)
         | _ => r)
       | none => r
     if kind == "ret" then
@@ -243,7 +248,7 @@ def replayEvent (r : Replay) (ag : Nat) (ws : List String) : Except String Repla
       let some a' := lookupN r.callAct id | .error s!"ret of unknown call {id}"
       let r := runSilent r a' 64
       let some (s', res) := retStep r.s a' | .error s!"call {id} returned but its model activity is at {pcOf r.s a'}"
-      let want := match args.getD 1 "" with | "busy" => 1 | "canceled" => 2 | _ => 0
+      let want := match args.getD 1 "" with | "busy" => 1 | "canceled" => 2 | "pending" => 3 | _ => 0
       if want != res then .error s!"call {id} returned {args.getD 1 ""} but the model returns {res}"
       return { r with s := s', hits := "ret" :: r.hits }
     -- notifications sent to callers that have finished waiting are not compared (see checkQueue)
@@ -332,6 +337,11 @@ def replayEvent (r : Replay) (ag : Nat) (ws : List String) : Except String Repla
         let n := parseNatD (dropFirst (args.getD 0 ""))
         if th == threadModel r1 n then .ok r1 else fail "wakes a different task"
       | "wakeup-dropped", .wakeupDropped => .ok r1
+      | "rsend", .resumeSend op =>
+        if lookupN r1.callOp (parseNatD (args.getD 0 "")) == some op then .ok r1 else fail "a different suspension is resumed"
+      | "cancel", .cancel op =>
+        if lookupN r1.callOp (parseNatD (args.getD 0 "")) == some op then .ok r1 else fail "a different operation is destroyed"
+      | "free", .free q => if parseNatD (args.getD 0 "") == q then .ok r1 else fail "a different object is freed"
       | "gsend", .gateSend g => if parseNatD (args.getD 0 "") == g then .ok r1 else fail "different gate"
       | "beg", .beg op =>
         if lookupN r1.callOp (parseNatD (args.getD 0 "")) == some op then .ok r1 else fail "a different operation begins"
